@@ -650,7 +650,7 @@ func genHistory(t *rapid.T, label string) history {
 			h.Uninterested = append(h.Uninterested, x)
 		}
 	}
-	switch rapid.SampledFrom([]int{0, 1, 2, 3, 4}).Draw(t, label+".template") {
+	switch rapid.SampledFrom([]int{0, 1, 1, 2, 3}).Draw(t, label+".template") {
 	case 0:
 		// everything is announced while the fetcher is suspended; nothing is announced afterwards
 		h.Template = "announce_only_while_suspended"
@@ -689,7 +689,11 @@ func genHistory(t *rapid.T, label string) history {
 		h.Settle = true
 		h.Uninterested = nil
 		short := func() int { return rapid.SampledFrom([]int{0, 1, 1, 2, 2, 4}).Draw(t, label+".shortPauseQ") }
-		all := items(1)
+		min := 1
+		if h.Items >= 2 {
+			min = 2
+		}
+		all := items(min)
 		cut := rapid.IntRange(0, len(all)-1).Draw(t, label+".cut")
 		if len(all) > 1 && cut == 0 {
 			cut = 1
@@ -739,7 +743,7 @@ func genHistory(t *rapid.T, label string) history {
 
 var st = stats.New("histories")
 
-const batch = 8 // histories per rapid case, run concurrently (each one mostly sleeps)
+const batch = 10 // histories per rapid case, run concurrently (each one mostly sleeps)
 
 func describe(h history, v verdict) string {
 	return fmt.Sprintf("%+v\ntimeline:\n%s", h, v.logText)
